@@ -698,8 +698,10 @@ func ruleC05PolicyDurationsVerbatim(c *Ctx) {
 			fld := fieldName(fa.X.Type(), fa.Field)
 			construct := trimPkgDirs(shortName(f)) + "/" + fld
 			okStore, why := false, ""
+			_, freshLit := fa.X.(*ssa.Alloc)
 			switch {
-			case f.Name() == "NewCryptoPolicy" && f.Parent() == nil:
+			case f.Parent() == nil && (f.Name() == "NewCryptoPolicy" || freshLit):
+				// the defaults literal: in NewCryptoPolicy itself or in a constructor of defaults it calls
 				_, isConst := constOf(st.Val)
 				_, fresh := fa.X.(*ssa.Alloc)
 				early := st.Block() == f.Blocks[0]
@@ -711,7 +713,7 @@ func ruleC05PolicyDurationsVerbatim(c *Ctx) {
 					}
 				}
 				okStore = isConst && fresh && early
-				why = "NewCryptoPolicy writes the field outside its defaults literal (after options ran, or a non-constant)"
+				why = "the field is written outside a defaults literal (after options ran, into a policy this function did not just allocate, or a non-constant)"
 			case f.Parent() != nil:
 				// option closure: the stored value is the constructor's parameter, captured
 				par := f.Parent()
@@ -1367,6 +1369,12 @@ func ruleC15VictimEnd(c *Ctx) {
 					}
 					if op, k, ok := cmpOnEdge(b, fct.True, isProbLen); ok {
 						if (op == token.LEQ && k <= 0) || (op == token.LSS && k <= 1) || (op == token.EQL && k == 0) {
+							empty = true
+						}
+					}
+					// probationList.Back()/Front() == nil: the list is empty
+					if x, isNil, ok := nilTest(fct); ok && isNil {
+						if cv, isC := resolve(x).(*ssa.Call); isC && (listCallName(cv) == "Back" || listCallName(cv) == "Front") && listFieldOf(cv) == "probationList" {
 							empty = true
 						}
 					}
